@@ -41,6 +41,79 @@ func RegisterSpecs(c *Ctx) {
 		}
 		return c.typeVal(c.In.comp(c.In.fact(t).KeyT, t, "Key")), nil
 	}
+	// effect trace of calls through function-typed parameters
+	e.Specs["traceLen"] = func(e *vc.Engine, env *vc.SpecEnv, args []spec.Expr) (vc.Val, error) {
+		tr, ok := env.St.Named("$trace")
+		if !ok {
+			return vc.Val{}, fmt.Errorf("spec: no effect trace in this state")
+		}
+		return vc.Val{T: smt.App(smt.Int, "s_len", tr.T), Ty: types.Typ[types.Int]}, nil
+	}
+	// called(j, f, args...): the j-th traced call is f(args...)
+	e.Specs["called"] = func(e *vc.Engine, env *vc.SpecEnv, args []spec.Expr) (vc.Val, error) {
+		tr, ok := env.St.Named("$trace")
+		if !ok {
+			return vc.Val{}, fmt.Errorf("spec: no effect trace in this state")
+		}
+		if len(args) < 2 {
+			return vc.Val{}, fmt.Errorf("spec: called(j, f, args...)")
+		}
+		j, err := e.EvalSpec(env, args[0])
+		if err != nil {
+			return vc.Val{}, err
+		}
+		var ts []smt.T
+		var sorts []smt.Sort
+		for _, a := range args[1:] {
+			v, err := e.EvalSpec(env, a)
+			if err != nil {
+				return vc.Val{}, err
+			}
+			ts = append(ts, vc.Box(v.T))
+			sorts = append(sorts, smt.V)
+		}
+		cn := fmt.Sprintf("mkcall%d", len(ts)-1)
+		e.Decls.Fun(cn, sorts, smt.V)
+		return vc.Val{T: smt.Eq(smt.App(smt.V, "s_at", tr.T, j.T), smt.App(smt.V, cn, ts...)), Ty: types.Typ[types.Bool]}, nil
+	}
+	// countIf(pred, list, i): how many of list[0..i) satisfy pred. Defined by
+	// its recursion equations; 0 <= countIf <= i is a lemma (induction on i).
+	e.Specs["countIf"] = func(e *vc.Engine, env *vc.SpecEnv, args []spec.Expr) (vc.Val, error) {
+		if len(args) != 3 {
+			return vc.Val{}, fmt.Errorf("spec: countIf(pred, list, i)")
+		}
+		p, err := e.EvalSpec(env, args[0])
+		if err != nil {
+			return vc.Val{}, err
+		}
+		l, err := e.EvalSpec(env, args[1])
+		if err != nil {
+			return vc.Val{}, err
+		}
+		i, err := e.EvalSpec(env, args[2])
+		if err != nil {
+			return vc.Val{}, err
+		}
+		if !e.Decls.HasFun("countIf") {
+			e.Decls.Fun("countIf", []smt.Sort{smt.V, smt.V, smt.Int}, smt.Int)
+			e.Decls.Fun("apply1!r0!V!B", []smt.Sort{smt.V, smt.V}, smt.Bool)
+			pp, ll, ii := smt.T{S: "p", Sort: smt.V}, smt.T{S: "l", Sort: smt.V}, smt.T{S: "i", Sort: smt.Int}
+			cnt := func(x smt.T) smt.T { return smt.App(smt.Int, "countIf", pp, ll, x) }
+			bs := []smt.Bound{{Name: "p", Sort: smt.V}, {Name: "l", Sort: smt.V}}
+			e.Axioms = append(e.Axioms, smt.Forall(bs, smt.Eq(cnt(smt.IntLit(0)), smt.IntLit(0))))
+			bs3 := append(bs, smt.Bound{Name: "i", Sort: smt.Int})
+			prev := smt.Sub(ii, smt.IntLit(1))
+			e.Axioms = append(e.Axioms, smt.Forall(bs3, smt.Implies(smt.Gt(ii, smt.IntLit(0)),
+				smt.Eq(cnt(ii), smt.Add(cnt(prev), smt.Ite(smt.App(smt.Bool, "apply1!r0!V!B", pp, smt.App(smt.V, "s_at", ll, prev)), smt.IntLit(1), smt.IntLit(0))))), cnt(ii)))
+			e.Axioms = append(e.Axioms, smt.Forall(bs3, smt.Implies(smt.Ge(ii, smt.IntLit(0)), smt.And(smt.Le(smt.IntLit(0), cnt(ii)), smt.Le(cnt(ii), ii))), cnt(ii)))
+			// lemma L-count (induction on b): a counted position is strictly below any later count
+			aa, bb := smt.T{S: "a", Sort: smt.Int}, smt.T{S: "b", Sort: smt.Int}
+			bs4 := append(bs, smt.Bound{Name: "a", Sort: smt.Int}, smt.Bound{Name: "b", Sort: smt.Int})
+			e.Axioms = append(e.Axioms, smt.Forall(bs4, smt.Implies(smt.And(smt.Le(smt.IntLit(0), aa), smt.Lt(aa, bb)),
+				smt.And(smt.Le(cnt(aa), cnt(bb)), smt.Implies(smt.App(smt.Bool, "apply1!r0!V!B", pp, smt.App(smt.V, "s_at", ll, aa)), smt.Lt(cnt(aa), cnt(bb))))), cnt(aa), cnt(bb)))
+		}
+		return vc.Val{T: smt.App(smt.Int, "countIf", p.T, l.T, i.T), Ty: types.Typ[types.Int]}, nil
+	}
 	two := func(name string, f func(env *vc.SpecEnv, t *geval.SymType, a, b vc.Val) (smt.T, error)) {
 		e.Specs[name] = func(e *vc.Engine, env *vc.SpecEnv, args []spec.Expr) (vc.Val, error) {
 			if len(args) != 3 {
